@@ -727,7 +727,10 @@ func referenceVerify(raw string, set []keyEntry, eff assertions, now int64) verd
 			continue
 		}
 
-		if vkit.VerifyRaw(alg, e.pub, []byte(parts[0]+"."+parts[1]), sig) {
+		// RFC 7515, section 5.2: the signature is over BASE64URL(header octets) || "." || BASE64URL(payload octets). A
+		// token whose parts spell the same octets differently (pad bits which are not zero, RFC 4648, section 3.5) carries
+		// the same verified header and payload; whether such a spelling is refused is not a matter of the property.
+		if vkit.VerifyRaw(alg, e.pub, []byte(b64.EncodeToString(hb)+"."+b64.EncodeToString(pb)), sig) {
 			sigOK = true
 		}
 	}
